@@ -1144,6 +1144,171 @@ fn run_a_to(
     }
 }
 
+fn resume_sig(s: i32) -> i32 {
+    if s == libc::SIGTRAP || s == libc::SIGSTOP || s == SIG_A || s == SIG_B || s == SIG_M {
+        0
+    } else {
+        s
+    }
+}
+
+/// True if thread `tid` of the child sleeps in a futex wait
+fn in_futex(pid: i32, tid: i32) -> bool {
+    std::fs::read_to_string(format!("/proc/{pid}/task/{tid}/syscall"))
+        .map(|t| t.starts_with("202 "))
+        .unwrap_or(false)
+}
+
+/// Stops a running thread of the child with SIGSTOP and waits for the stop.
+/// Returns the marker signal if the thread reached its marker instead.
+fn freeze(c: &Child, tid: i32, marker_sig: i32) -> Option<i32> {
+    unsafe {
+        libc::syscall(libc::SYS_tgkill, c.pid, tid, libc::SIGSTOP);
+    }
+    loop {
+        match wait_tid(tid, true) {
+            Some(Stop::Sig(libc::SIGSTOP)) => return None,
+            Some(Stop::Sig(s)) if s == marker_sig => return Some(s),
+            Some(Stop::Sig(s)) => cont(tid, resume_sig(s)),
+            Some(Stop::Event(_)) => cont(tid, 0),
+            _ => return None,
+        }
+    }
+}
+
+enum BState {
+    /// stopped just before its k-th synchronising instruction
+    Frozen,
+    /// reached its end marker first
+    Done,
+    /// sleeps in a futex wait (needs something the frozen A holds); stopped
+    Blocked,
+    Gone,
+}
+
+/// Second preemption: with A frozen, B runs until it is about to execute the
+/// `k`-th synchronising instruction of its list (breakpoints on every site of
+/// the executable, planted and removed through the stopped thread A)
+fn run_b_to_kth(c: &Child, k: usize) -> Result<BState, String> {
+    let base = load_base(c.pid).ok_or("no load base")?;
+    let mut bps = std::collections::HashMap::new();
+    for v in sync_sites() {
+        let a = base + v;
+        bps.insert(a, set_bp(c.a, a));
+    }
+    let clear_all = |except: Option<u64>| {
+        for (a, o) in &bps {
+            if Some(*a) != except {
+                clear_bp(c.a, *a, *o);
+            }
+        }
+    };
+    let mut hits = 0usize;
+    let mut futex_polls = 0;
+    let t0 = std::time::Instant::now();
+    cont(c.b, 0);
+    loop {
+        match wait_tid(c.b, false) {
+            Some(Stop::Sig(libc::SIGTRAP)) => {
+                let site = get_rip(c.b) - 1;
+                let Some(orig) = bps.get(&site) else {
+                    clear_all(None);
+                    return Err(format!("thread B: SIGTRAP at {site:#x}, not a breakpoint"));
+                };
+                clear_bp(c.a, site, *orig);
+                set_rip(c.b, site);
+                hits += 1;
+                if hits >= k {
+                    clear_all(Some(site));
+                    return Ok(BState::Frozen);
+                }
+                pt(libc::PTRACE_SINGLESTEP, c.b, 0, 0);
+                match wait_tid(c.b, true) {
+                    Some(Stop::Sig(libc::SIGTRAP)) => (),
+                    Some(Stop::Sig(s)) if s == SIG_B => {
+                        clear_all(Some(site));
+                        return Ok(BState::Done);
+                    }
+                    other => {
+                        clear_all(Some(site));
+                        return Err(format!("thread B stepping over a breakpoint: {other:?}"));
+                    }
+                }
+                set_bp(c.a, site);
+                cont(c.b, 0);
+            }
+            Some(Stop::Sig(s)) if s == SIG_B => {
+                clear_all(None);
+                return Ok(BState::Done);
+            }
+            Some(Stop::Sig(s)) => cont(c.b, resume_sig(s)),
+            Some(Stop::Event(_)) => cont(c.b, 0),
+            Some(Stop::Exited(_)) | Some(Stop::Killed(_)) => {
+                return Ok(BState::Gone);
+            }
+            None => {
+                futex_polls = if in_futex(c.pid, c.b) { futex_polls + 1 } else { 0 };
+                if futex_polls >= 4 || t0.elapsed() > std::time::Duration::from_millis(1500) {
+                    let at_marker = freeze(c, c.b, SIG_B);
+                    clear_all(None);
+                    return Ok(if at_marker.is_some() { BState::Done } else { BState::Blocked });
+                }
+                std::thread::sleep(std::time::Duration::from_micros(100));
+            }
+        }
+    }
+}
+
+/// With B frozen in the middle of its list: A runs to its end marker (if A
+/// ends up waiting for something B holds, A is frozen, B finishes, A resumes),
+/// then B runs to its end marker
+fn a_then_b_to_markers(c: &Child) {
+    cont(c.a, 0);
+    let mut futex_polls = 0;
+    let t0 = std::time::Instant::now();
+    let mut a_done = false;
+    loop {
+        match wait_tid(c.a, false) {
+            Some(Stop::Sig(s)) if s == SIG_A => {
+                a_done = true;
+                break;
+            }
+            Some(Stop::Sig(s)) => cont(c.a, resume_sig(s)),
+            Some(Stop::Event(_)) => cont(c.a, 0),
+            Some(_) => break,
+            None => {
+                futex_polls = if in_futex(c.pid, c.a) { futex_polls + 1 } else { 0 };
+                if futex_polls >= 4 || t0.elapsed() > std::time::Duration::from_millis(1500) {
+                    a_done = freeze(c, c.a, SIG_A).is_some();
+                    break;
+                }
+                std::thread::sleep(std::time::Duration::from_micros(100));
+            }
+        }
+    }
+    // B to its end marker
+    cont(c.b, 0);
+    loop {
+        match wait_tid(c.b, true) {
+            Some(Stop::Sig(s)) if s == SIG_B => break,
+            Some(Stop::Sig(s)) => cont(c.b, resume_sig(s)),
+            Some(Stop::Event(_)) => cont(c.b, 0),
+            _ => break,
+        }
+    }
+    if !a_done {
+        cont(c.a, 0);
+        loop {
+            match wait_tid(c.a, true) {
+                Some(Stop::Sig(s)) if s == SIG_A => break,
+                Some(Stop::Sig(s)) => cont(c.a, resume_sig(s)),
+                Some(Stop::Event(_)) => cont(c.a, 0),
+                _ => break,
+            }
+        }
+    }
+}
+
 /// Discovery: the sequence of synchronising instructions (absolute addresses
 /// inside the executable) that thread A executes between its markers
 pub fn discover(seed: u64) -> Result<Option<Vec<u64>>, String> {
@@ -1281,6 +1446,9 @@ pub struct Point {
     pub addr: u64,
     pub nth: usize,
     pub extra: u64,
+    /// 0: B runs to completion while A is frozen; k > 0: B is frozen in turn
+    /// just before its k-th synchronising instruction, A finishes, B finishes
+    pub second: usize,
 }
 
 /// One trial: A runs to `point`, is frozen, B runs its whole list, A resumes
@@ -1310,6 +1478,33 @@ pub fn trial(seed: u64, point: Point) -> (Verdict, bool) {
         }
     }
     let mut blocked = false;
+    if point.second > 0 && !a_done {
+        match run_b_to_kth(&c, point.second) {
+            Ok(BState::Frozen) => {
+                a_then_b_to_markers(&c);
+                let v = finish(c, true, &mut blocked);
+                return (v, false);
+            }
+            Ok(BState::Blocked) => {
+                // B waits for the frozen A: A finishes first
+                cont(c.a, 0);
+                loop {
+                    match wait_tid(c.a, true) {
+                        Some(Stop::Sig(s)) if s == SIG_A => break,
+                        Some(Stop::Sig(s)) => cont(c.a, resume_sig(s)),
+                        Some(Stop::Event(_)) => cont(c.a, 0),
+                        _ => break,
+                    }
+                }
+                let v = finish(c, true, &mut blocked);
+                return (v, true);
+            }
+            Ok(BState::Done) | Ok(BState::Gone) => {
+                // B is through: the single-preemption schedule
+            }
+            Err(e) => return (Verdict::Harness(e), false),
+        }
+    }
     let v = finish(c, a_done, &mut blocked);
     (v, blocked)
 }
@@ -1327,8 +1522,8 @@ fn skeleton_points(seq: &[u64]) -> Vec<Point> {
     let mut out = vec![];
     for (k, a) in seq.iter().enumerate() {
         let nth = seq[..k].iter().filter(|b| *b == a).count();
-        out.push(Point { addr: *a, nth, extra: 0 });
-        out.push(Point { addr: *a, nth, extra: 1 });
+        out.push(Point { addr: *a, nth, extra: 0, second: 0 });
+        out.push(Point { addr: *a, nth, extra: 1, second: 0 });
     }
     out
 }
@@ -1343,8 +1538,8 @@ fn conflict_points(a: &[Access], b: &[Access]) -> Vec<Point> {
     for x in a {
         let conflict = if x.write { b_any.contains(&x.key) } else { b_written.contains(&x.key) };
         if conflict {
-            out.push(Point { addr: x.rip, nth: x.nth, extra: 0 });
-            out.push(Point { addr: x.rip, nth: x.nth, extra: 1 });
+            out.push(Point { addr: x.rip, nth: x.nth, extra: 0, second: 0 });
+            out.push(Point { addr: x.rip, nth: x.nth, extra: 1, second: 0 });
         }
     }
     out.sort();
@@ -1460,25 +1655,43 @@ pub fn run(st: &Shared, tier: Tier, rep: &mut RunReport) {
     }
     points.sort();
     points.dedup();
-    let base = seq.first().map(|a| a & !0xfff).unwrap_or(0);
-    let _ = base;
+    // a share of the points gets a second preemption: B is frozen in turn in
+    // the middle of its list (schedules A-part, B-part, A-rest, B-rest)
+    if !seq.is_empty() {
+        let ch = &mut st.borrow_mut().ch;
+        let den = match tier {
+            Tier::Quick => 6,
+            Tier::Thorough => 3,
+        };
+        let mut two = vec![];
+        for p in &points {
+            if ch.odds("e6_two_preemptions", 1, den) {
+                let second = 1 + ch.choose("e6_second_point", 2 * seq.len() as u32) as usize;
+                two.push(Point { second, ..*p });
+            }
+        }
+        points.extend(two);
+    }
     for p in points {
         let (v, blocked) = trial(seed, p);
         rep.count("fault.preempted_at_instruction", 1);
+        if p.second > 0 {
+            rep.count("fault.second_thread_preempted_too", 1);
+        }
         if blocked {
             rep.count("e6.second_thread_blocked_by_frozen_first", 1);
         }
         st.borrow_mut().log(
             "e6_trial",
-            ((p.nth as u64) << 8) | p.extra,
+            ((p.nth as u64) << 24) | ((p.second as u64) << 8) | p.extra,
             matches!(v, Verdict::Equal) as u64,
         );
         rep.evaluations += 1;
         rep.steps += 1;
-        rep.sigs.push(mix(mix(mix(seed, p.addr), p.nth as u64), p.extra));
+        rep.sigs.push(mix(mix(mix(mix(seed, p.addr), p.nth as u64), p.extra), p.second as u64));
         rep.checked_oracle += 1;
         let place = format!(
-            "child seed {seed}: thread A frozen {} execution #{} of the instruction at {:#x}{} ({}), thread B run to completion in between",
+            "child seed {seed}: thread A frozen {} execution #{} of the instruction at {:#x}{} ({}), {}",
             if p.extra == 0 { "just before" } else { "just after" },
             p.nth + 1,
             p.addr,
@@ -1487,6 +1700,14 @@ pub fn run(st: &Shared, tier: Tier, rep: &mut RunReport) {
                 "a plain load/store that conflicts with an access of thread B, found by the deep pass"
             } else {
                 "a point of the synchronisation skeleton"
+            },
+            if p.second == 0 {
+                "thread B run to completion in between".to_string()
+            } else {
+                format!(
+                    "thread B then frozen just before its synchronising instruction #{}, A run to completion, then B",
+                    p.second
+                )
             },
         );
         match v {
@@ -1543,7 +1764,7 @@ pub fn probe(seed: u64) {
                 println!("  A write rip {:#x} key {:#x}", x.rip - 0x555555554000, x.key);
             }
         }
-        for p in cp.iter().take(6) {
+        for p in cp.iter().take(4) {
             let t0 = std::time::Instant::now();
             let r = trial(seed, *p);
             println!("  trial {p:x?}: {r:?} {:.3}s", t0.elapsed().as_secs_f64());
